@@ -28,6 +28,7 @@ func init() {
 			{ID: "C08.8", Desc: "a Date is supplied for every origin response, a 304 included (the freshened entry's age restarts from it)", Run: func(c *Ctx) { ruleDateRepair(c, "C08.8") }, MinSites: 1},
 			{ID: "C08.9", Desc: "the variant list of a revalidation context is the list the matcher's position refers to", Run: ruleC08_9, MinSites: 1},
 			{ID: "C08.7", Desc: "a validated 200 is storable whatever forced the validation (evaluator ignores request no-cache / max-age)", Run: func(c *Ctx) { ruleEvaluatorRequestDirectives(c, "C08.7") }, MinSites: 1},
+			{ID: "C08.10", Desc: "a 304 freshens the stored response only when it answers the stored validators (no validator of the client reaches the origin)", Run: func(c *Ctx) { ruleClientValidatorsRemoved(c, "C08.10") }, MinSites: 1},
 		},
 	})
 }
